@@ -108,7 +108,7 @@ CHECKS["C10"] = dict(
          "(hence every reference evaluates the same in any case); an unbound name is an error value, never a default; a duplicate label "
          "fails at the second definition; a label entered by pass 1 has the position of the following item and persists (fold invariant) "
          "- pass 2 evaluates references only afterwards, so forward references resolve; after .set every reference sees exactly that "
-         "value (first definition and re-assignment); .def/.undef scope; an alias operand is the register operand for the encoder." + PROG,
+         "value (first definition and re-assignment); .def/.undef scope; an alias operand is the register operand for the encoder. C10_equ_stored / C10_equ_evaluated_at_use (an .equ keeps its expression; every reference evaluates it afresh where and when it stands); C10_label_before_directive (a label in front of any directive is entered before the directive acts)." + PROG,
     note=BASE + " Domain: names unique across the four kinds modulo case (cross-kind clashes resolve by a fixed priority without error; "
          "the property demands failure for duplicate labels only). Search oracle: reference resolver in vlib/c10.py + deletion/duplication mutants.",
     tech="Coq proof (fold invariants, case lemmas) + differential correspondence + reference-resolver oracle", ref="3 C10")
@@ -117,7 +117,7 @@ CHECKS["C12"] = dict(
          "EEPROM image <= EEPROM bytes, data extent <= RAM bytes of the selected (or default) device, and a successful build reports "
          "exactly that device's sizes and the RAM extent; C12_pass1_capacity; C12_device_once (unknown / second device is an error); "
          "C12_parts: every shipped includes/*def.inc whose device is in the table declares the figures the table enforces (both "
-         "regenerated from /repo on every run, compared by vm_compute)." + PROG,
+         "regenerated from /repo on every run, compared by vm_compute). C12_only_device_selects: no directive but .device (and .include, which hands over to another file) changes the selected device." + PROG,
     note=BASE + " Search: every device row x 3 memories x {cap-1, cap, cap+1} reached by .org, data, code, reservation; the report the "
          "command-line tool prints with -v (usage and capacity of the three memories) under every device row.",
     tech="Coq proof (characterisation of the capacity check) + regenerated device/part tables + exhaustive boundary runs", ref="3 C12")
@@ -149,7 +149,7 @@ CHECKS["C15"] = dict(
          "in instruction/data/.set, value range, device gate, .undef, .def), pass 1 (duplicate label, wrong segment, address space), the "
          "parse loop (syntax) and directive handling (.if/.org evaluation, unknown directive/device, .error) names the line of the "
          "offending statement - sole stated exception: .byte's 'too many arguments'. C15_message: .message/.warning append exactly their "
-         "text with their own line number and change nothing else." + PROG,
+         "text with their own line number and change nothing else. C15_line_numbers / C15_lines_are_split_at_every_LF: the i-th physical line carries the number i, an unbounded natural number; there are no continuation lines." + PROG,
     note=BASE + " Search: 19 fault kinds injected one at a time into valid programs; message order/numbering incl. conditional arms. "
          "Messages inside macro bodies are outside the property's quantifier.",
     tech="Coq proof (exhaustive case analysis of every error site) + single-fault injection search + differential correspondence", ref="3 C15")
@@ -159,7 +159,7 @@ CHECKS["C16"] = dict(
          "panic; cyclic symbols / recursive macros end in an error at depth 64; all model functions are total. Not expressible in Gallina: "
          "native stack depth, time, allocator - exercised by ./check C16: every case in an isolated worker (3 GB limit, watchdog), "
          "bounded-exhaustive single-line programs (153 heads x 0-2 operands from a 43-entry hostile dictionary), structural extremes, "
-         "mutated programs; three deep-nesting inputs are open known findings." + PROG,
+         "mutated programs; three deep-nesting inputs are open known findings. C16_no_truncation / C16_counter_bounded: an advance that reaches 2^32 is an error whatever its size; accepted counters stay below 2^32." + PROG,
     note=BASE + " The remaining Panic sites of the model are the 32-bit additions of pass 2, unreachable after pass 1's check (not proved). "
          "'Promptly' is operationalised as 3 s (two tries) in the debug worker for 64 KiB - the bound of the quantifier - of one kind of "
          "line each; everything else runs under a 10 s watchdog.",
@@ -234,7 +234,7 @@ CHECKS["C09"] = dict(
          "included); C09_call_is_paste_ok (an accepted call leaves the state the body's items written in its place leave), "
          "C09_expansion_shape, C09_items_in_order, C09_depth_monotone. PARTIAL only for bodies that switch segments or include files: "
          "those rest on the correspondence and on the oracle search (real build of the macro program = real build of the hand-expanded "
-         "program)." + PROG,
+         "program). C09_body_verbatim: a macro body is recorded as exactly the lines that were written, up to the first end-of-macro line." + PROG,
     note=BASE + " Search: macros with up to ten parameters, bodies with instructions, data, conditionals on parameters, nested calls and "
          "segment switches; arguments = registers, index forms, random expression trees; calls before the definition and in mixed case.",
     tech="Coq proof (token-level substitution lemma; parser round trip instantiated for Display; splice of a call into pass 0 by an invariant "
